@@ -472,7 +472,8 @@ class Fn:
             elif isinstance(pr, dict) and 'downcast' in pr:
                 loc = loc + ('@' + str(pr['downcast']),)
             elif isinstance(pr, dict) and 'index' in pr:
-                loc = loc + ('[]',)
+                k = self.const_local(pr['index'])
+                loc = loc + (('[%d]' % k) if k is not None else '[]',)
             elif isinstance(pr, dict) and 'const_index' in pr:
                 loc = loc + ('[%s%d]' % ('-' if pr.get('from_end') else '', pr['const_index']),)
             elif isinstance(pr, dict) and 'subslice' in pr:
@@ -480,6 +481,54 @@ class Fn:
             else:
                 loc = loc + ('?',)
         return loc
+
+    def const_local(self, l):
+        """value of a local that is assigned exactly once, from an integer constant"""
+        cl = getattr(self, '_const_locals', None)
+        if cl is None:
+            cnt = defaultdict(int)
+            val = {}
+            for b in self.blocks.values():
+                for st in b['stmts']:
+                    if st['k'] == 'assign' and not st['place']['proj']:
+                        x = st['place']['local']
+                        cnt[x] += 1
+                        rv = st['rv']
+                        if 'use' in rv and 'const' in rv['use'] and rv['use']['const'].get('scalar') is not None:
+                            val[x] = int(rv['use']['const']['scalar'], 16)
+                        else:
+                            val.pop(x, None)
+                            cnt[x] += 1
+                t = b['term']
+                if t and t['k'] == 'call' and not t['dest']['proj']:
+                    cnt[t['dest']['local']] += 2
+            cl = {x: v for x, v in val.items() if cnt[x] == 1}
+            self._const_locals = cl
+        return cl.get(l)
+
+    def ref_def_place(self, l):
+        """for a single-assignment reference temporary `_l = &P` return P"""
+        m = getattr(self, '_refdef', None)
+        if m is None:
+            m = {}
+            cnt = defaultdict(int)
+            for b in self.blocks.values():
+                for st in b['stmts']:
+                    if st['k'] == 'assign' and not st['place']['proj']:
+                        x = st['place']['local']
+                        cnt[x] += 1
+                        if 'ref' in st['rv']:
+                            m[x] = st['rv']['ref']
+                        elif 'use' in st['rv'] and op_place(st['rv']['use']) is not None and not op_place(st['rv']['use'])['proj']:
+                            m[x] = ('alias', op_place(st['rv']['use'])['local'])
+            m = {x: v for x, v in m.items() if cnt[x] == 1}
+            self._refdef = m
+        v = m.get(l)
+        n = 0
+        while isinstance(v, tuple) and v[0] == 'alias' and n < 10:
+            v = m.get(v[1])
+            n += 1
+        return v if isinstance(v, dict) else None
 
     def loc(self, place):
         return self._loc_raw(place, self.refmap())
